@@ -199,8 +199,109 @@ def _r(x):
     return x if isinstance(x, Rat) else Rat.const(x)
 
 
+REG = {}   # atom string -> (function name, [args as Rat or str])
+
+
 def fn_atom(name, *args):
-    return Rat.atom("%s(%s)" % (name, ", ".join(str(a) for a in args)))
+    a = "%s(%s)" % (name, ", ".join(str(x) for x in args))
+    REG[a] = (name, list(args))
+    return Rat.atom(a)
+
+
+def rewrite(x, rule):
+    """Rebuild x bottom-up; rule(name, args, atom_str) -> Rat | None (None keeps the atom with rewritten args).
+    Plain variable atoms are passed as rule(None, [], atom)."""
+    x = _r(x)
+
+    def atom(a):
+        if a in REG:
+            name, args = REG[a]
+            nargs = [rewrite(y, rule) if isinstance(y, Rat) else y for y in args]
+            r = rule(name, nargs, a)
+            if r is not None:
+                return _r(r)
+            if name == "sqrt":
+                return r_sqrt(nargs[0])
+            if name == "abs":
+                return r_abs(nargs[0])
+            if name == "ite":
+                return ite(nargs[0], nargs[1], nargs[2])
+            return fn_atom(name, *nargs)
+        r = rule(None, [], a)
+        return _r(r) if r is not None else Rat.atom(a)
+
+    def poly(p):
+        tot = Rat.const(0)
+        for m, c in p.items():
+            t = Rat.const(c)
+            for a, e in m:
+                t = t * (atom(a) ** e)
+            tot = tot + t
+        return tot
+    return poly(x.n) / poly(x.d) if x.d != p_const(1) else poly(x.n)
+
+
+def diff(x, var):
+    """d x / d var  (var an atom string). Function atoms: chain rule through a small derivative table."""
+    x = _r(x)
+
+    def d_atom(a):
+        if a == var:
+            return Rat.const(1)
+        if a in REG:
+            name, args = REG[a]
+            u = args[0] if args and isinstance(args[0], Rat) else None
+            if name == "ln" and u is not None:
+                return diff(u, var) / u
+            if name == "exp" and u is not None:
+                return Rat.atom(a) * diff(u, var)
+            if name == "sqrt" and u is not None:
+                du = diff(u, var)
+                return du / (2 * Rat.atom(a)) if du.n else Rat.const(0)
+            if name == "abs" and u is not None:
+                du = diff(u, var)
+                return fn_atom("sgn", u) * du if du.n else Rat.const(0)
+            if name == "tanh" and u is not None:
+                return (1 - Rat.atom(a) * Rat.atom(a)) * diff(u, var)
+            if name == "cosh" and u is not None:
+                return fn_atom("sinh", u) * diff(u, var)
+            if name == "sinh" and u is not None:
+                return fn_atom("cosh", u) * diff(u, var)
+            if name == "ite":
+                c_, t_, e_ = args
+                return ite(c_, diff(t_, var), diff(e_, var))
+            # any other function of var: not differentiable here
+            for y in args:
+                if isinstance(y, Rat) and var in _all_atoms(y):
+                    raise ValueError("cannot differentiate %s with respect to %s" % (a, var))
+            return Rat.const(0)
+        return Rat.const(0)
+
+    def d_poly(p):
+        tot = Rat.const(0)
+        for m, c in p.items():
+            for i, (a, e) in enumerate(m):
+                da = d_atom(a)
+                if not da.n:
+                    continue
+                rest = Rat({tuple(x_ for j, x_ in enumerate(m) if j != i): Fr(1)})
+                tot = tot + Rat.const(c) * rest * (Rat.atom(a) ** (e - 1)) * e * da
+        return tot
+    n, d = Rat(x.n), Rat(x.d)
+    if x.d == p_const(1):
+        return d_poly(x.n)
+    return (d_poly(x.n) * d - n * d_poly(x.d)) / (d * d)
+
+
+def _all_atoms(x):
+    out = set()
+    for a in _r(x).atoms():
+        out.add(a)
+        if a in REG:
+            for y in REG[a][1]:
+                if isinstance(y, Rat):
+                    out |= _all_atoms(y)
+    return out
 
 
 def r_sqrt(x):
@@ -265,7 +366,7 @@ def ite(cond, a, b):
     a, b = _r(a), _r(b)
     if a == b:
         return a
-    return fn_atom("ite", cond, a, b)
+    return fn_atom("ite", str(cond), a, b)
 
 
 # ------------------------------------------------------------------ HIR -> Rat
